@@ -1,7 +1,7 @@
 SPECIFICATION Spec
 CONSTANT Deviations = {}
 CONSTANT LeafSet = "small"
-CONSTANT FnSet = "one"
+CONSTANT FnSet = "all"
 CONSTANT FullDepth2 = FALSE
 CONSTANT MaxDepth = 2
 INVARIANT RoundTripParses
